@@ -255,3 +255,8 @@ mod tests {
         thread.join().unwrap();
     }
 }
+
+#[cfg(kani)]
+mod verif_kani {
+    include!(concat!(env!("H33P_CGLUE_VERIF_DIR"), "/task.rs"));
+}
